@@ -5,6 +5,7 @@ import random
 import gen_line as G
 import line_engine as LE
 import e2e_engine as E2E
+import genproof
 import vf
 
 TRUSTED = [
@@ -22,7 +23,7 @@ def agree(a, b):
     return a == b
 
 
-def run(rep, tier, seed, replay):
+def _run(rep, tier, seed, replay):
     if replay and E2E.replay_case(rep, "C09", replay):
         rep.cov.setdefault("trusted_base", ["end-to-end replay of one case against the built binary"])
         rep.cov.setdefault("rule", "replay of one end-to-end case")
@@ -144,3 +145,9 @@ def run(rep, tier, seed, replay):
                             "TCP / UDP / unixgram, /metrics and the parser's counters compared with the model" % rep.extra.get("e2e_flags_cases", 0))
     for k in (0, len(cases) // 3, len(cases) - 1):
         rep.sample(dict(flags=cases[k][0], line=repr(cases[k][1]), impl=impl[k]))
+
+
+def run(rep, tier, seed, replay):
+    _run(rep, tier, seed, replay)
+    if not replay:
+        genproof.clock_obligation(rep, "C09_clock.v", "the line parser (pkg/line) asks the clock something, while line_to_events is a function of the line's bytes and the flag set", ('pkg/line.',))
